@@ -112,6 +112,52 @@ impl Ledger {
         }
         m
     }
+    /// The monitor's own count for one address family at a moment in [qb, qa], when the votes it
+    /// sent determine it: per voter the most recent vote, if it is unexpired. `None` if some
+    /// voter's most recent PONG may not have been counted (the voter was not certainly eligible)
+    /// while a vote of that voter may still be alive, or if a vote may or may not have run out.
+    fn exact_counts(&self, v6: bool, qb: u64, qa: u64) -> Option<BTreeMap<u64, usize>> {
+        let mut m = BTreeMap::new();
+        for votes in self.fam[v6 as usize].values() {
+            let last = votes.last()?;
+            if votes.iter().all(|v| v.e_hi <= qb) {
+                continue; // everything this voter said has run out
+            }
+            if !last.surely_counted {
+                return None;
+            }
+            if last.e_lo > qa {
+                *m.entry(last.addr).or_insert(0) += 1;
+            } else if last.e_hi > qb {
+                return None;
+            }
+        }
+        Some(m)
+    }
+    /// The property text on the monitor's own count: the adopted address must be the most recent
+    /// unexpired vote of at least `min` voters and lead every rival by the margin.
+    fn check_against_own_majority(&self, s: Sock, min: usize, qb: u64, qa: u64) -> Option<String> {
+        let counts = self.exact_counts(s.0, qb, qa)?;
+        let mine = counts.get(&s.1).cloned().unwrap_or(0);
+        let rival = counts.iter().filter(|(a, _)| **a != s.1).max_by_key(|(_, c)| **c).map(|(a, c)| (*a, *c));
+        let bad = mine < min || matches!(rival, Some((_, c)) if 10 * c >= 7 * mine);
+        if !bad {
+            return None;
+        }
+        // the address the votes do support, if any
+        let majority = counts.iter().find(|(a, c)| **c >= min && counts.iter().all(|(b, d)| b == *a || 10 * *d < 7 * **c)).map(|(a, _)| *a);
+        let tally: Vec<String> = counts.iter().map(|(a, c)| format!("address {} <- {} voters", a, c)).collect();
+        Some(match majority {
+            Some(w) => format!(
+                "the record moved to address {} ({} current votes) while the clear majority of the most recent unexpired votes is address {} [{}]",
+                s.1, mine, w, tally.join(", ")
+            ),
+            None => format!(
+                "the record moved to address {} ({} current votes) while the most recent unexpired votes give no address the minimum and the clear-majority margin [{}]",
+                s.1, mine, tally.join(", ")
+            ),
+        })
+    }
     /// The property text for an address that wins / is adopted at a moment in [qb, qa].
     fn check_winner(&self, s: Sock, min: usize, qb: u64, qa: u64) -> Option<String> {
         let ever = self.ever.get(&s).map(|x| x.len()).unwrap_or(0);
@@ -378,43 +424,68 @@ struct SCase {
     init4: Option<u64>,
     init6: Option<u64>,
     steps: Vec<SStep>,
+    kind: &'static str,
+}
+
+/// One PONG of the random part of a script: voter, reported address (primary : rival : any other
+/// of the family = `wsel`), the voter's table status set before it, the path and the sleep.
+fn random_step(rng: &mut Rng, dur_ns: u64, n4: u64, n6: u64, v6_share: u64, wsel: &[u64; 3]) -> SStep {
+    // peers 0..8 can be in the table, 9..11 never are
+    let peer = if rng.chance(1, 8) { 9 + rng.below(3) as usize } else { rng.below(9) as usize };
+    let v6 = n6 > 0 && rng.chance(v6_share, 10);
+    let k = if v6 { n6 } else { n4 };
+    let which = match rng.weighted(wsel) {
+        0 => 0,
+        1 => 1 % k,
+        _ => rng.below(k),
+    };
+    let sock: Sock = if v6 { (true, 101 + which) } else { (false, 1 + which) };
+    let status = if peer >= 9 {
+        None
+    } else {
+        match rng.weighted(&[50, 22, 12, 16]) {
+            0 => Some((true, false)),
+            1 => Some((true, true)),
+            2 => Some((false, rng.chance(1, 2))),
+            _ => None,
+        }
+    };
+    let sleep_ns = match rng.weighted(&[80, 12, 8]) {
+        0 => 0,
+        1 => dur_ns / 3,
+        _ => dur_ns + dur_ns / 4,
+    };
+    SStep { peer, sock, status, full_path: rng.chance(1, 2), sleep_ns }
+}
+
+fn shuffle<T>(rng: &mut Rng, v: &mut [T]) {
+    for i in (1..v.len()).rev() {
+        let j = rng.below(i as u64 + 1) as usize;
+        v.swap(i, j);
+    }
 }
 
 fn gen_scase(rng: &mut Rng, thorough: bool) -> SCase {
+    match rng.weighted(&[5, 3, 2]) {
+        0 => gen_scase_random(rng, thorough),
+        1 => gen_scase_tip(rng, thorough, false),
+        _ => gen_scase_tip(rng, thorough, true),
+    }
+}
+
+fn gen_scase_random(rng: &mut Rng, thorough: bool) -> SCase {
     let min = rng.range(2, 5) as usize;
     let dur_ns = 80_000_000u64;
     let dual = rng.chance(1, 2);
     let n4 = rng.range(2, 3);
-    let n6 = if dual || rng.chance(1, 4) { rng.range(1, 2) } else { 0 };
+    let n6 = if dual || rng.chance(1, 3) { rng.range(1, 4) } else { 0 };
+    // the share of IPv6 PONGs and how often a voter reports another address than the primary one
+    let v6_share = if dual { *rng.pick(&[3u64, 5, 7]) } else { *rng.pick(&[2u64, 5]) };
+    let wsel: [u64; 3] = *rng.pick(&[[6u64, 3, 1], [5, 3, 2], [4, 3, 3]]);
     let nsteps = if thorough { rng.range(20, 60) } else { rng.range(14, 36) };
     let mut steps = vec![];
-    // peers 0..8 can be in the table, 9..11 never are
     for _ in 0..nsteps {
-        let peer = if rng.chance(1, 8) { 9 + rng.below(3) as usize } else { rng.below(9) as usize };
-        let v6 = n6 > 0 && rng.chance(if dual { 4 } else { 2 }, 10);
-        let k = if v6 { n6 } else { n4 };
-        let which = match rng.weighted(&[6, 3, 1]) {
-            0 => 0,
-            1 => 1 % k,
-            _ => rng.below(k),
-        };
-        let sock: Sock = if v6 { (true, 101 + which) } else { (false, 1 + which) };
-        let status = if peer >= 9 {
-            None
-        } else {
-            match rng.weighted(&[50, 22, 12, 16]) {
-                0 => Some((true, false)),
-                1 => Some((true, true)),
-                2 => Some((false, rng.chance(1, 2))),
-                _ => None,
-            }
-        };
-        let sleep_ns = match rng.weighted(&[80, 12, 8]) {
-            0 => 0,
-            1 => dur_ns / 3,
-            _ => dur_ns + dur_ns / 4,
-        };
-        steps.push(SStep { peer, sock, status, full_path: rng.chance(1, 2), sleep_ns });
+        steps.push(random_step(rng, dur_ns, n4, n6, v6_share, &wsel));
     }
     SCase {
         min,
@@ -422,8 +493,96 @@ fn gen_scase(rng: &mut Rng, thorough: bool) -> SCase {
         dual,
         auto_nat: rng.chance(1, 2),
         init4: if rng.chance(1, 3) { Some(1) } else { None },
-        init6: if dual && rng.chance(1, 4) { Some(101) } else { None },
+        init6: if n6 > 0 && rng.chance(1, 4) { Some(101 + rng.below(n6)) } else { None },
         steps,
+        kind: "random",
+    }
+}
+
+/// Scripts in which a majority becomes clear through a PONG that reports ANOTHER address than the
+/// winner: `a` eligible voters report A and `b` report B, with `b` at or above the clear-majority
+/// threshold of `a` (competing addresses, no winner; B is reported first so that A is never a
+/// clear majority on the way). Then either B voters change their mind one after the other and
+/// report third addresses (`by_expiry` = false), or B's older votes run out and the next PONG, for
+/// a third address, is evaluated without them (`by_expiry` = true). The property wants the record
+/// to follow the majority the votes form at that moment - never the address of the PONG that
+/// happened to be processed. Two thirds of these scripts play in the IPv6 family. A random tail
+/// follows.
+fn gen_scase_tip(rng: &mut Rng, thorough: bool, by_expiry: bool) -> SCase {
+    let dur_ns = 80_000_000u64;
+    let min = rng.range(2, 5) as usize;
+    let dual = rng.chance(1, 2);
+    let v6 = rng.chance(2, 3);
+    // a leader of 2 can never be a clear majority next to any other vote (threshold(2) = 1)
+    let a = rng.range((min as u64).max(3), 5);
+    let thr = clear_majority_threshold(a as usize) as u64;
+    let b = rng.range(thr.min(a), a.min(9 - a));
+    let base: u64 = if v6 { 101 } else { 1 };
+    // which of the family's addresses play A and B (so that neither is always the lowest code)
+    let (ca, cb) = *rng.pick(&[(0u64, 1u64), (1, 0), (2, 0), (0, 2)]);
+    let mut third: Vec<u64> = (0..5).filter(|c| *c != ca && *c != cb).collect();
+    shuffle(rng, &mut third);
+    let mut voters: Vec<usize> = (0..9).collect();
+    shuffle(rng, &mut voters);
+    let a_voters: Vec<usize> = voters[..a as usize].to_vec();
+    let b_voters: Vec<usize> = voters[a as usize..(a + b) as usize].to_vec();
+    let spare: Vec<usize> = voters[(a + b) as usize..].to_vec();
+    let eligible = Some((true, false));
+    let mut steps: Vec<SStep> = vec![];
+    // build-up: B first (mostly), then A; or any order
+    let mut order: Vec<(usize, u64)> = b_voters.iter().map(|p| (*p, cb)).chain(a_voters.iter().map(|p| (*p, ca))).collect();
+    let b_first = by_expiry || rng.chance(3, 4);
+    if !b_first {
+        shuffle(rng, &mut order);
+    }
+    for (k, (p, c)) in order.iter().enumerate() {
+        let sleep_ns = if by_expiry && k == b as usize { dur_ns / 2 } else { 0 };
+        steps.push(SStep { peer: *p, sock: (v6, base + c), status: eligible, full_path: rng.chance(1, 2), sleep_ns });
+    }
+    if by_expiry {
+        // B's votes have run out, A's have not; somebody reports a third address (or B again)
+        let n = rng.range(1, 2);
+        for k in 0..n {
+            let p = if !spare.is_empty() && rng.chance(1, 2) { *rng.pick(&spare) } else { *rng.pick(&b_voters) };
+            let c = if rng.chance(1, 5) { cb } else { third[(k as usize) % third.len()] };
+            let sleep_ns = if k == 0 { dur_ns / 2 + dur_ns / 10 } else { 0 };
+            steps.push(SStep { peer: p, sock: (v6, base + c), status: eligible, full_path: rng.chance(1, 2), sleep_ns });
+        }
+    } else {
+        // B voters defect until B has fallen below the threshold (and sometimes further)
+        let d_min = b - thr.min(b) + 1;
+        let d = rng.range(d_min.min(b), b);
+        let fresh_each = rng.chance(1, 2);
+        let mut defectors = b_voters.clone();
+        shuffle(rng, &mut defectors);
+        for k in 0..d as usize {
+            let c = if fresh_each { third[k % third.len()] } else { third[0] };
+            steps.push(SStep { peer: defectors[k], sock: (v6, base + c), status: eligible, full_path: rng.chance(1, 2), sleep_ns: 0 });
+        }
+    }
+    // random tail over the same addresses
+    let (n4, n6) = if v6 { (2, 5) } else { (5, if dual { 2 } else { 0 }) };
+    let v6_share = if v6 { 7 } else { 3 };
+    let ntail = if thorough { rng.range(4, 24) } else { rng.range(2, 12) };
+    for _ in 0..ntail {
+        steps.push(random_step(rng, dur_ns, n4, n6, v6_share, &[4, 3, 3]));
+    }
+    // the initial record: none, or some address of the family (A itself included)
+    let init = match rng.weighted(&[5, 2, 2, 1]) {
+        0 => None,
+        1 => Some(base + cb),
+        2 => Some(base + third[0]),
+        _ => Some(base + ca),
+    };
+    SCase {
+        min,
+        dur_ns,
+        dual,
+        auto_nat: rng.chance(1, 2),
+        init4: if v6 { if rng.chance(1, 3) { Some(1) } else { None } } else { init },
+        init6: if v6 { init } else { None },
+        steps,
+        kind: if by_expiry { "majority_emerges_by_expiry_of_the_rival" } else { "majority_emerges_by_defection_to_a_third_address" },
     }
 }
 
@@ -529,6 +688,16 @@ fn run_scase(id: u64, g: &SCase, peers: &[Peer], local_key_bytes: &[u8]) -> Case
             if *c != st.sock && ledger.possible(*c, tb) == 0 {
                 failures.push(("the record changed to an address nobody voted for".into(), i));
             }
+            if *c != st.sock {
+                hist.add("service:updated_to_another_address_than_the_pong_reported");
+            }
+            match ledger.exact_counts(c.0, tb, ta) {
+                Some(_) => hist.add("service:update_compared_with_the_monitors_own_majority"),
+                None => hist.add("service:update_checked_by_vote_bounds_only"),
+            }
+            if let Some(m) = ledger.check_against_own_majority(*c, g.min, tb, ta) {
+                failures.push((m, i));
+            }
             if let Some(m) = ledger.check_winner(*c, g.min, tb, ta) {
                 failures.push((format!("record updated: {}", m), i));
             }
@@ -584,6 +753,7 @@ fn run_scase(id: u64, g: &SCase, peers: &[Peer], local_key_bytes: &[u8]) -> Case
     }
     let _ = truncated;
     hist.add(if g.dual { "service:case_dual_stack" } else { "service:case_ip4_mode" });
+    hist.add(&format!("service:case_{}", g.kind));
     hist.add(&format!("service:minimum_{}", g.min));
     hist.add(if g.auto_nat { "service:case_auto_nat_on" } else { "service:case_auto_nat_off" });
     let o = |x: Option<u64>| coq_opt(x.map(|v| v.to_string()));
@@ -602,6 +772,7 @@ fn run_scase(id: u64, g: &SCase, peers: &[Peer], local_key_bytes: &[u8]) -> Case
         ("case", J::I(id as i64)),
         ("minimum", J::I(g.min as i64)),
         ("dual_stack", J::B(g.dual)),
+        ("kind", J::s(g.kind)),
         ("initial_record", J::s(format!("{:?}", init))),
         ("first_steps", J::A(steps.iter().take(6).map(|s| J::s(s.clone())).collect())),
     ]);
